@@ -107,6 +107,22 @@ def big_slices(exe, driver, cfg):
     return dis, fails, rows
 
 
+def huge_seqs(exe, cfg):
+    """thorough tier: Vec<u8> / VecDeque<u8> / Box<[u8]> / &[u8] of exactly 2^32 elements (one child each, ~4 GiB of
+    untouched zero pages): every one of the length-prefix clauses that can be reached with a real value must refuse."""
+    kinds = ['vec', 'deque', 'boxslice', 'slice']
+    impl = run_cases(exe, [case_line('g%d' % i, 'hugeseq', '-', '-', k) for i, k in enumerate(kinds)], shards=2)
+    fails, rows = [], []
+    for i, k in enumerate(kinds):
+        a = impl.get('g%d' % i)
+        rows.append({'kind': k, 'len': 2 ** 32, 'impl': a})
+        if a is None or not a.startswith('err InvalidData'):
+            fails.append({'class': 'length-prefix', 'key': 'hugeseq ' + k,
+                          'what': 'a %s of 2^32 bytes has no encoding (the length does not fit the u32 prefix): expected a refusal with InvalidData, implementation %s [%s]' % (k, a, cfg),
+                          'replay_cmd': "printf 'g\\thugeseq\\t-\\t-\\t%s\\n' | <harness-%s>" % (k, cfg)})
+    return fails, rows
+
+
 def run(tier, seed, t0):
     coq = coq_property(PID)
     driver = ensure_driver()
@@ -143,6 +159,11 @@ def run(tier, seed, t0):
         failures += f
         stats['big_slices'][cfg] = rows
         stats['evaluations'] += len(rows)
+        if tier != 'quick' and cfg == 'std-strict':
+            f, rows = huge_seqs(exe, cfg)
+            failures += f
+            stats['huge_byte_collections'] = rows
+            stats['evaluations'] += len(rows)
         if not stats['samples']:
             stats['samples'] = [{'type': r['type'], 'value': r['repr'], 'impl': r['impl']} for r in recs[7:400:55] if r['status'] == 'run']
     stats['result_classes'] = dict(classes)
